@@ -184,8 +184,17 @@ func (repo *StoragePeerRepository) Load(ctx context.Context) error {
 		return errors.Wrap(err, "Failed to read peers count")
 	}
 
-	// Reset
-	repo.list = make(PeerList, 0, count)
+	if count < 0 {
+		return errors.New("Invalid peers count")
+	}
+
+	// Reset. Don't trust the count for more than the data could contain. Each peer is at least an
+	// address size, score, and time.
+	capacity := int(count)
+	if maxCount := buffer.Len() / 12; capacity > maxCount {
+		capacity = maxCount
+	}
+	repo.list = make(PeerList, 0, capacity)
 
 	// Parse peers
 	for {
@@ -263,12 +272,17 @@ func readPeer(r io.Reader, version uint8) (Peer, error) {
 		return result, err
 	}
 
-	addressData := make([]byte, addressSize)
-	_, err := io.ReadFull(r, addressData) // Read until string terminator
-	if err != nil {
+	if addressSize < 0 {
+		return result, errors.New("Invalid address size")
+	}
+
+	// Read the address as the data is available rather than allocating the specified size, since
+	// the data might be damaged.
+	addressData := &bytes.Buffer{}
+	if _, err := io.CopyN(addressData, r, int64(addressSize)); err != nil {
 		return result, err
 	}
-	result.Address = string(addressData)
+	result.Address = addressData.String()
 
 	// Read score
 	if err := binary.Read(r, binary.LittleEndian, &result.Score); err != nil {
